@@ -277,9 +277,6 @@ def sessions_of(case, trace):
                     cli.start("R0:0")
                 elif to == "s" and srv and not srv.freed:
                     srv.start("R0:0")
-                elif to == "s":
-                    srv = None
-                    pend_srv = True
                 continue
             if t.startswith("a.q:") and cli and cli.cur and cli.cur[0] == "S?":
                 f = t.split(":")
@@ -309,9 +306,7 @@ def sessions_of(case, trace):
             if t.startswith("c.") and cli:
                 if cli.freed and not (cli.cur and cli.cur[0] in ("L", "F")):
                     continue
-                was = cli.cur
                 cli.token(t[2:])
-                # a retransmission that found the gate closed moves the message to the delay queue
                 continue
             if t.startswith("s."):
                 if t == "s.ev:4001":
@@ -321,10 +316,6 @@ def sessions_of(case, trace):
                     continue
                 if srv and not (srv.freed and srv.cur is None):
                     srv.token(t[2:])
-        # retransmission chunks: a re-delayed message shows only in the snapshot
-        if cli:
-            for st in cli.steps:
-                pass
     # post-process retransmissions: no tx and no nack in the chunk => the node was re-delayed
     for _, s in out:
         for st in s.steps:
